@@ -104,3 +104,6 @@ def run_proofs(ctx):
     from vf.proofs import c09_eval
 
     c09_eval.run_proofs(ctx)
+    from vf.proofs import c08
+
+    c08.run_proofs(ctx)       # kind inference (_is_categorical): which values the kind guard above treats as categorical
